@@ -247,6 +247,52 @@ func checkC02(args []string) {
 			}
 		}
 	}
+	// pictures larger than the backward-reference window with repeats at its limits: a lossless file, and a lossy file
+	// whose ALPH plane (Method 6: full window) is such a picture. Encode returned nil, so the file must decode, to the
+	// source (lossless) / to the source alpha (ALPH)
+	{
+		far := farMatchPicture(rng)
+		withAlpha := image.NewNRGBA(far.Rect)
+		for i := 0; i < len(far.Pix); i += 4 {
+			withAlpha.Pix[i], withAlpha.Pix[i+1], withAlpha.Pix[i+2], withAlpha.Pix[i+3] = 90, 120, 60, far.Pix[i]
+		}
+		type fc struct {
+			name string
+			src  *image.NRGBA
+			o    webp.EncoderOptions
+		}
+		lossyA := *webp.DefaultOptions()
+		lossyA.Method, lossyA.Quality = 6, 30
+		fcs := []fc{{"1024x1040 grey noise with repeats at the window limits, lossless q80 m4", far, webp.EncoderOptions{Lossless: true, Quality: 80, Method: 4}}}
+		{
+			fcs = append(fcs, fc{"1024x1040 flat colour under a noise alpha plane with repeats at the window limits, lossy m6", withAlpha, lossyA})
+		}
+		for _, c := range fcs {
+			oo := c.o
+			out, err, pan := safeEncode(c.src, &oo)
+			run.Eval(c.name)
+			if pan != nil || err != nil {
+				run.Violate("encode-fails|far-matches", fmt.Sprintf("%s: %v %v", c.name, err, pan), c.name)
+				continue
+			}
+			im, derr := guardedDecode(out)
+			if derr != nil {
+				run.Violate("undecodable|far-matches", c.name+": Encode returned nil but Decode fails: "+derr.Error(), c.name)
+				continue
+			}
+			got, ok := im.(*image.NRGBA)
+			if !ok || got.Bounds().Dx() != 1024 || got.Bounds().Dy() != 1040 {
+				run.Violate("pixels|far-matches", fmt.Sprintf("%s: decodes to %T %v", c.name, im, im.Bounds()), c.name)
+				continue
+			}
+			for i := 0; i < len(got.Pix); i += 4 {
+				if got.Pix[i+3] != c.src.Pix[i+3] || (c.o.Lossless && (got.Pix[i] != c.src.Pix[i] || got.Pix[i+1] != c.src.Pix[i+1] || got.Pix[i+2] != c.src.Pix[i+2])) {
+					run.Violate("pixels|far-matches", fmt.Sprintf("%s: pixel %d decodes to %v, source %v", c.name, i/4, got.Pix[i:i+4], c.src.Pix[i:i+4]), c.name)
+					break
+				}
+			}
+		}
+	}
 	report := func(kind string, bad map[string]string) {
 		for id, why := range bad {
 			parts := strings.SplitN(info[id], "||", 2)
